@@ -2,7 +2,9 @@ use crate::check::Property;
 
 pub mod c01;
 pub mod c02;
+pub mod c03;
 pub mod c04;
+pub mod c05;
 pub mod c07;
 pub mod c08;
 pub mod c12;
@@ -11,5 +13,5 @@ pub mod c15;
 pub mod c17;
 
 pub fn all() -> Vec<Property> {
-    vec![c01::property(), c02::property(), c04::property(), c07::property(), c08::property(), c12::property(), c14::property(), c15::property(), c17::property()]
+    vec![c01::property(), c02::property(), c03::property(), c04::property(), c05::property(), c07::property(), c08::property(), c12::property(), c14::property(), c15::property(), c17::property()]
 }
